@@ -238,6 +238,8 @@ struct Rw<'s> {
     anchor_done: BTreeSet<usize>,
     self_as: Option<String>,
     scan_only: bool,
+    /// (body start, body end, label) of every match / select arm, in visiting order
+    arms: Vec<(usize, usize, String)>,
 }
 
 impl<'s> Rw<'s> {
@@ -265,6 +267,18 @@ impl<'s> Rw<'s> {
             }
         }
         self.unit.subst_lookup(segs).map(|s| s.to_string())
+    }
+
+    /// R16 (case split): register a match / select arm; in a copy where it is not the live arm its
+    /// body is prefixed with a call to the prelude function `arm_verified_in_another_copy()`.
+    fn register_arm(&mut self, body: Span, label: String) {
+        let (a, b) = br(body);
+        let idx = self.arms.len();
+        self.arms.push((a, b, label.clone()));
+        if self.f.kill_arms.contains(&idx) {
+            self.edit(a, a, "{ arm_verified_in_another_copy(); ", "R16", &format!("arm `{}` is verified in another copy", label));
+            self.edit(b, b, " }", "R16", "arm close");
+        }
     }
 
     fn ghost_arg(&self) -> Option<String> {
@@ -341,7 +355,12 @@ impl<'s> Rw<'s> {
                 format!("{}, {})", inner, garg)
             }
         };
-        let head = format!("{{ let __ev = {};\n{}\nmatch __ev {{", oracle, sel.post);
+        // text before a `//---` line goes before the oracle call, the rest after it
+        let (sel_pre, sel_post) = match sel.post.find("//---") {
+            Some(i) => (sel.post[..i].to_string(), sel.post[i + 5..].to_string()),
+            None => (String::new(), sel.post.clone()),
+        };
+        let head = format!("{{\n{}\nlet __ev = {};\n{}\nmatch __ev {{", sel_pre.trim_end(), oracle, sel_post.trim_end());
         self.edit(ma, open_end, &head, "R3", &format!("select! #{} -> match on oracle at {}", k, self.loc(whole)));
         self.edit(close_a, close_b, "} }", "R3", "select! close");
         for (i, arm) in body.arms.iter().enumerate() {
@@ -366,6 +385,7 @@ impl<'s> Rw<'s> {
             let pat_txt = self.text(arm.pat.span()).to_string();
             let newpat = format!("{}::{}({}) =>", sel.enum_name, want.variant, pat_txt);
             self.edit(pa, fb, &newpat, "R3", &format!("arm {} `{}`", want.variant, want.fut));
+            self.register_arm(arm.body.span(), format!("select arm {} ({}:{})", want.variant, self.src.rel, arm.body.span().start().line));
             self.visit_expr(&arm.body);
             // an expression arm body without trailing comma is legal in select! only for the last arm
             let needs_comma = !matches!(arm.body, syn::Expr::Block(_)) && arm.comma.is_none();
@@ -603,6 +623,13 @@ impl<'s> Visit<'s> for Rw<'s> {
                 self.inject_loop(&l.body, e.span());
                 syn::visit::visit_expr_loop(self, l);
             }
+            syn::Expr::Match(m) => {
+                for arm in &m.arms {
+                    let label = format!("match arm `{}` ({}:{})", norm(self.text(arm.pat.span())).chars().take(70).collect::<String>(), self.src.rel, arm.pat.span().start().line);
+                    self.register_arm(arm.body.span(), label);
+                }
+                syn::visit::visit_expr_match(self, m);
+            }
             syn::Expr::MethodCall(m) => {
                 let name = m.method.to_string();
                 self.calls.insert(name.clone());
@@ -773,6 +800,7 @@ struct Emitted {
     src_lo_line: usize,
     src_hi_line: usize,
     original: String,
+    arms: Vec<(usize, usize, String)>,
 }
 
 fn line_map(src: &SrcFile, ap: &Applied) -> Vec<Option<usize>> {
@@ -834,6 +862,7 @@ fn compute_threaded(unit: &Unit, srcs: &HashMap<String, SrcFile>) -> R<BTreeSet<
             anchor_done: BTreeSet::new(),
             self_as: None,
             scan_only: true,
+            arms: vec![],
         };
         match block {
             Body::Block(b) => rw.visit_block(b),
@@ -959,6 +988,7 @@ fn emit_fn(unit: &Unit, src: &SrcFile, f: &FnSpec, threaded: &BTreeSet<String>) 
         anchor_done: BTreeSet::new(),
         self_as: f.self_as.clone(),
         scan_only: false,
+        arms: vec![],
     };
 
     let name = f.out_name();
@@ -1146,6 +1176,7 @@ fn emit_fn(unit: &Unit, src: &SrcFile, f: &FnSpec, threaded: &BTreeSet<String>) 
             refuse!("anchor lost: statement `{}` (occurrence {}) not found in `{}`", a.pattern, a.occurrence, f.path);
         }
     }
+    let arms = rw.arms.clone();
     let mut edits = rw.edits;
     let ap = apply_edits(&src.text, lo, hi, &mut edits)?;
     let mut lm = line_map(src, &ap);
@@ -1169,6 +1200,7 @@ fn emit_fn(unit: &Unit, src: &SrcFile, f: &FnSpec, threaded: &BTreeSet<String>) 
         src_lo_line: src.line_of(lo),
         src_hi_line: src.line_of(hi.saturating_sub(1)),
         original: src.text[lo..hi].to_string(),
+        arms,
     })
 }
 
@@ -1213,6 +1245,7 @@ fn emit_item(unit: &Unit, src: &SrcFile, it: &ItemSpec) -> R<Emitted> {
         anchor_done: BTreeSet::new(),
         self_as: None,
         scan_only: false,
+        arms: vec![],
     };
     let (attrs, ident): (&Vec<syn::Attribute>, &syn::Ident) = match item {
         syn::Item::Struct(s) => (&s.attrs, &s.ident),
@@ -1303,7 +1336,7 @@ fn emit_item(unit: &Unit, src: &SrcFile, it: &ItemSpec) -> R<Emitted> {
     let mut edits = rw.edits;
     let ap = apply_edits(&src.text, lo, hi, &mut edits)?;
     let lm = line_map(src, &ap);
-    Ok(Emitted { text: ap.text, line_src: lm, rules: edits, src_lo_line: src.line_of(lo), src_hi_line: src.line_of(hi - 1), original: src.text[lo..hi].to_string() })
+    Ok(Emitted { text: ap.text, line_src: lm, rules: edits, src_lo_line: src.line_of(lo), src_hi_line: src.line_of(hi - 1), original: src.text[lo..hi].to_string(), arms: vec![] })
 }
 
 // ---------------------------------------------------------------------------
@@ -1389,45 +1422,83 @@ fn run() -> R<()> {
         match p {
             Part::Raw(s) => push_raw(&mut text, &mut line_src, s),
             Part::Fn(_) | Part::Item(_) => {
-                let (em, file, name, kind) = match p {
-                    Part::Fn(f) => (emit_fn(&unit, &srcs[&f.file], f, &threaded)?, f.file.clone(), f.path.clone(), "fn"),
-                    Part::Item(it) => (emit_item(&unit, &srcs[&it.file], it)?, it.file.clone(), it.name.clone(), "item"),
-                    _ => unreachable!(),
-                };
-                let start_line = line_src.len() + 1;
-                let mut n = 0;
-                for (i, l) in em.text.lines().enumerate() {
-                    text.push_str(l);
-                    text.push('\n');
-                    line_src.push(em.line_src.get(i).cloned().flatten().map(|ln| (file.clone(), ln)));
-                    n += 1;
-                }
-                let end_line = start_line + n - 1;
-                let out_name = match p {
-                    Part::Fn(f) => f.out_name(),
-                    Part::Item(it) => it.rename.clone().unwrap_or(it.name.clone()),
-                    _ => unreachable!(),
-                };
-                let mut rids = vec![];
-                for e in &em.rules {
-                    if e.rule == "INJ" || e.rule == "SIG" {
-                        continue;
+                // (emitted text, file, source name, kind, output name, case-split label)
+                let mut outs: Vec<(Emitted, String, String, &str, String, Option<String>)> = vec![];
+                match p {
+                    Part::Fn(f) if f.split_arms => {
+                        let probe = emit_fn(&unit, &srcs[&f.file], f, &threaded)?;
+                        let arms = probe.arms.clone();
+                        let leaves: Vec<usize> = (0..arms.len())
+                            .filter(|&i| !(0..arms.len()).any(|j| j != i && arms[j].0 >= arms[i].0 && arms[j].1 <= arms[i].1))
+                            .collect();
+                        if leaves.len() < 2 {
+                            outs.push((probe, f.file.clone(), f.path.clone(), "fn", f.out_name(), None));
+                        } else {
+                            for (n, &live) in leaves.iter().enumerate() {
+                                let mut fc = f.clone();
+                                fc.kill_arms = leaves.iter().cloned().filter(|&x| x != live).collect();
+                                let nm = format!("{}__arm{}", f.out_name(), n);
+                                fc.rename = Some(nm.clone());
+                                // the ghost-threading set is keyed by the original name
+                                let mut th = threaded.clone();
+                                if threaded.contains(&f.out_name()) {
+                                    th.insert(nm.clone());
+                                }
+                                let em = emit_fn(&unit, &srcs[&f.file], &fc, &th)?;
+                                outs.push((em, f.file.clone(), f.path.clone(), "fn", nm, Some(arms[live].2.clone())));
+                            }
+                        }
                     }
-                    *rule_counts.entry(e.rule.clone()).or_insert(0) += 1;
-                    rids.push(e.rule.clone());
-                    rules.push(serde_json::json!({"rule": e.rule, "item": name, "file": file, "line": srcs[&file].line_of(e.start), "note": e.note}));
+                    Part::Fn(f) => outs.push((emit_fn(&unit, &srcs[&f.file], f, &threaded)?, f.file.clone(), f.path.clone(), "fn", f.out_name(), None)),
+                    Part::Item(it) => outs.push((emit_item(&unit, &srcs[&it.file], it)?, it.file.clone(), it.name.clone(), "item", it.rename.clone().unwrap_or(it.name.clone()), None)),
+                    _ => unreachable!(),
+                };
+                for (em, file, name, kind, out_name, split) in outs {
+                    let start_line = line_src.len() + 1;
+                    let mut n = 0;
+                    if let Some(lbl) = &split {
+                        text.push_str(&format!("// ---- case-split copy (R16): live arm = {}\n", lbl));
+                        line_src.push(None);
+                    }
+                    let mut extra = if split.is_some() { 1 } else { 0 };
+                    if let Part::Fn(f) = p {
+                        for a in &f.attrs {
+                            text.push_str(a);
+                            text.push('\n');
+                            line_src.push(None);
+                            extra += 1;
+                        }
+                    }
+                    for (i, l) in em.text.lines().enumerate() {
+                        text.push_str(l);
+                        text.push('\n');
+                        line_src.push(em.line_src.get(i).cloned().flatten().map(|ln| (file.clone(), ln)));
+                        n += 1;
+                    }
+                    let start_line = start_line + extra;
+                    let end_line = start_line + n - 1;
+                    let mut rids = vec![];
+                    for e in &em.rules {
+                        if e.rule == "INJ" || e.rule == "SIG" {
+                            continue;
+                        }
+                        *rule_counts.entry(e.rule.clone()).or_insert(0) += 1;
+                        rids.push(e.rule.clone());
+                        rules.push(serde_json::json!({"rule": e.rule, "item": name, "file": file, "line": srcs[&file].line_of(e.start), "note": e.note}));
+                    }
+                    items_json.push(serde_json::json!({
+                        "kind": kind, "name": name, "out_name": out_name, "file": file,
+                        "src_lines": [em.src_lo_line, em.src_hi_line], "unit_lines": [start_line, end_line],
+                        "src_fingerprint": sha(&em.original), "rules": rids,
+                        "threaded": threaded.contains(&out_name) || split.is_some() && threaded.contains(name.rsplit("::").next().unwrap()),
+                        "split_arm": split,
+                    }));
+                    let _ = writeln!(fidelity, "=== {} {} ({}:{}-{}) fingerprint {} -> unit.rs:{}-{}{}", kind, name, file, em.src_lo_line, em.src_hi_line, sha(&em.original), start_line, end_line, split.as_ref().map(|l| format!(" [case-split copy, live arm: {}]", l)).unwrap_or_default());
+                    for e in &em.rules {
+                        let _ = writeln!(fidelity, "  [{}] {}:{} {}", e.rule, file, srcs[&file].line_of(e.start), e.note);
+                    }
+                    let _ = writeln!(fidelity, "--- original\n{}\n--- emitted\n{}\n", em.original, em.text);
                 }
-                items_json.push(serde_json::json!({
-                    "kind": kind, "name": name, "out_name": out_name, "file": file,
-                    "src_lines": [em.src_lo_line, em.src_hi_line], "unit_lines": [start_line, end_line],
-                    "src_fingerprint": sha(&em.original), "rules": rids,
-                    "threaded": threaded.contains(&out_name),
-                }));
-                let _ = writeln!(fidelity, "=== {} {} ({}:{}-{}) fingerprint {} -> unit.rs:{}-{}", kind, name, file, em.src_lo_line, em.src_hi_line, sha(&em.original), start_line, end_line);
-                for e in &em.rules {
-                    let _ = writeln!(fidelity, "  [{}] {}:{} {}", e.rule, file, srcs[&file].line_of(e.start), e.note);
-                }
-                let _ = writeln!(fidelity, "--- original\n{}\n--- emitted\n{}\n", em.original, em.text);
             }
         }
     }
